@@ -23,6 +23,7 @@ MASKS = {
              8: "error but a script was observed", 16: "ok/error disagreement"},
     "splits": {1: "keys of into_single_descriptors", 4: "error class", 16: "ok/error disagreement"},
     "finds": {1: "index found", 2: "found / not found"},
+    "parses": {1: "parsed key", 2: "print(parse text) differs from the text", 4: "error kind", 16: "accepted / rejected disagreement"},
 }
 
 
@@ -111,7 +112,7 @@ def run(rep, tier, seed, replay):
             rep.violation("tie-broken", "desc_cases_match_model fails and the diagnosis did not run: " + err,
                           {"property": PID, "broken_tie": "coq/Tables/DescCasesCheck.v: desc_cases_match_model", "log": err}, False)
         else:
-            for kind, lst in zip(("scripts", "keys", "splits", "finds"), lists):
+            for kind, lst in zip(("scripts", "keys", "splits", "finds", "parses"), lists):
                 for (cid, mask) in lst:
                     n_tie_diff += 1
                     case_id = cid // 1000 if kind == "scripts" else cid
@@ -133,7 +134,7 @@ def run(rep, tier, seed, replay):
     hist["network"] = {n: judged for n in ("bitcoin", "testnet", "testnet4", "signet", "regtest")}
     obligations = len(thms) + 1
     discharged = (len(thms) if ok else 0) + (1 if tie_ok else 0)
-    coq_cases = sum(counters.get(k, 0) for k in ("coq_script_cases", "coq_key_cases", "coq_split_cases", "coq_find_cases"))
+    coq_cases = sum(counters.get(k, 0) for k in ("coq_script_cases", "coq_key_cases", "coq_split_cases", "coq_find_cases", "coq_parse_cases"))
     rep.coverage.update({
         "obligations": obligations, "discharged": discharged,
         "checker_cmd": "make -C coq ; coqc Properties/C16.v ; verif-harness desc <seed> coq/Tables ; "
